@@ -68,7 +68,7 @@ def argv_of(o):
 
 class C15(Prop):
     id = "C15"
-    once_kinds = ("point", "auto", "usage", "links", "blockends")
+    once_kinds = ("point", "auto", "usage", "links", "blockends", "dashfile")
     rule = ("cases: the complete product of 288 option points x 3 probe documents (each option changes at least one of them; "
             "CRLF / lone-CR / BOM documents given as the same bytes in a file and on stdin) x {file->stdout, file->-o, stdin->stdout, stdin->-o, --inplace, --inplace --nobackup, several files->stdout, "
             "several files --inplace} through cli.main in-process, reformat_file and reformat_text; --auto against its spelled-out "
@@ -91,6 +91,8 @@ class C15(Prop):
             yield {"kind": "links", "mode": ["--inplace", "--auto"][shard - 1]}
         if shard in (3, 4, 5):
             yield {"kind": "blockends", "opts": [pts[7 * shard], pts[-(5 * shard)]]}
+        if shard in (6, 7):
+            yield {"kind": "dashfile", "opts": pts[11 * shard]}
         r = shard_rng(seed, self.id, shard)
         n = 3 if tier == "quick" else 20
         for _ in range(n):
@@ -102,6 +104,8 @@ class C15(Prop):
         self.cli = cli
         self.api = reformat_api
         self.tmp = tempfile.mkdtemp(prefix="vf-c15-")
+        # what the terminal is said to look like must not matter for the bytes produced (subprocesses inherit it)
+        os.environ["COLUMNS"], os.environ["LINES"] = "31", "7"
 
     def teardown_worker(self, col):
         shutil.rmtree(self.tmp, ignore_errors=True)
@@ -147,6 +151,8 @@ class C15(Prop):
     def listing(d):
         out = {}
         for dp, dn, fn in os.walk(d):
+            for x in dn:
+                out[os.path.relpath(os.path.join(dp, x), d) + "/"] = b"<directory>"
             for f in fn:
                 p = os.path.join(dp, f)
                 with open(p, "rb") as fh:
@@ -342,6 +348,35 @@ class C15(Prop):
                                 line=k, got=(got.split("\n")[k] if k is not None and k < len(got.split("\n")) else "")[:80], want=(want.split("\n")[k] if k is not None else "")[:80])
             shutil.rmtree(d, ignore_errors=True)
 
+    def _check_dashfile(self, case, col):
+        """A file whose name is '-', named the usual way as './-': it is a file, not stdin."""
+        o = case["opts"]
+        a = argv_of(o)
+        want = self.expected(DOCS["second.md"], o)
+        if not isinstance(want, str):
+            return
+        for mode in ("stdout", "-o", "several", "inplace"):
+            d = self.fresh(dict(DOCS, **{"-": DOCS["second.md"]}))
+            if mode == "stdout":
+                rc, got, _ = self.main(a + ["./-"], d, stdin="STDIN TEXT that must not be read\n")
+            elif mode == "-o":
+                rc, _, _ = self.main(a + ["-o", "out.md", "./-"], d, stdin="STDIN TEXT that must not be read\n")
+                got = self.read(d, "out.md") if os.path.exists(os.path.join(d, "out.md")) else ""
+            elif mode == "several":
+                rc, got, _ = self.main(a + ["./-", "probe.md"], d, stdin="STDIN TEXT that must not be read\n")
+                w2 = self.expected(DOCS["probe.md"], o)
+                want_m = want + (w2 if isinstance(w2, str) else "")
+            else:
+                rc, _, _ = self.main(a + ["-i", "--nobackup", "./-"], d, stdin="STDIN TEXT\n")
+                got = self.read(d, "-")
+            col.case()
+            col.mon("inproc")
+            col.distinct("dashfile", mode, tuple(sorted(o.items())))
+            w = want_m if mode == "several" else want
+            if rc != 0 or got != w:
+                self.differ(col, "inproc", f"C15/file-named-dash/{mode}-differs-from-text-api", dict(case, mode=mode), rc=rc, got_head=got[:80], want_head=w[:80])
+            shutil.rmtree(d, ignore_errors=True)
+
     def _check_usage(self, case, col):
         for argv, stdin in ([[], None], [["--auto"], None], [["--list-files"], None], [["-o", "out.md", "probe.md", "second.md"], None],
                             [["--inplace", "-"], "text\n"], [["-w", "40"], None], [["--auto", "-"], "text\n"], [["nonexistent.md"], None],
@@ -349,7 +384,9 @@ class C15(Prop):
                             [["-o", "sub/dir/out.md"], "text\n"], [["--nobackup", "-o", "x.md", "probe.md", "second.md"], None],
                             # "several files" is about what the arguments resolve to: one directory or glob naming several files
                             [["-o", "out.md", "."], None], [["-o", "out.md", "*.md"], None], [["-o", "out.md", "./"], None],
-                            [["-o", "out.md", "-w", "40", "s*.md", "probe.md"], None]):
+                            [["-o", "out.md", "-w", "40", "s*.md", "probe.md"], None],
+                            # nothing is written: not even the parent directories of the output path
+                            [["-o", "new/dir/out.md", "probe.md", "second.md"], None], [["-o", "new2/out.md", "probe.md", "-"], "text\n"]):
             d = self.fresh(DOCS)
             before = self.listing(d)
             rc, out, err = self.main(list(argv), d, stdin=stdin)
